@@ -23,7 +23,7 @@ RULE = ('(a) the C03 history generator (minus queue/sorted-iteration calls Fanou
         'calls judged + keys routed; distinct_nontrivial = distinct (operation, outcome, shard count) cells + distinct '
         '(key class, shard count, hash-seed pair) routing cells')
 DISTINCT = ('cells', 'routing_cells')
-REQUIRED = ('check_flag_cases', 'bulk_removals_while_shards_locked', 'histories_with_stored_pickle_protocol', 'calls_judged', 'histories', 'shard_counts_seen', 'keys_cross_process', 'golden_hashes_compared',
+REQUIRED = ('blocks_compared_with_unsharded', 'check_flag_cases', 'bulk_removals_while_shards_locked', 'histories_with_stored_pickle_protocol', 'calls_judged', 'histories', 'shard_counts_seen', 'keys_cross_process', 'golden_hashes_compared',
             'equal_key_pairs', 'check_damage_cases', 'aggregate_calls', 'partial_reopen_cases', 'handle_exchanges', 'skewed_culls', 'settings_reloaded_through_another_handle')
 ASSUMPTIONS = ('iteration order over shards is shard-major by design: compared as a permutation',
                'golden routing was recorded from the pinned commit by tools/mkgolden.py')
@@ -536,6 +536,55 @@ def bulk_while_shards_locked(dc, sc, res, rng, shards, label):
         sc.drop(d)
 
 
+def blocks_like_unsharded(dc, sc, res, rng, shards, label):
+    """A transact() block on the sharded cache does what it does on an unsharded one: left by an exception it changes
+    nothing in any shard, completed it applies everything."""
+    class Boom(Exception):
+        pass
+    d1, d2 = sc.new(), sc.new()
+    f = dc.FanoutCache(d1, shards=shards, disk_min_file_size=64)
+    c = dc.Cache(d2, disk_min_file_size=64)
+    try:
+        keys = ['k%02d' % i for i in range(24)] + [('t', i) for i in range(6)]
+        for h in (f, c):
+            for i, k in enumerate(keys):
+                h.set(k, 'v' * (100 if i % 4 == 0 else 3), tag='t%d' % (i % 2))
+            h.set('n', 100)
+        for aborts in (True, False, True):
+            picks = rng.sample(keys, 6)
+            outcome = {}
+            for name, h in (('sharded', f), ('unsharded', c)):
+                try:
+                    with h.transact():
+                        h.set(picks[0], 'rewritten' * 20)
+                        h.set('new-%s' % aborts, 'x' * 90)
+                        h.delete(picks[1])
+                        h.pop(picks[2], None)
+                        h.incr('n', 1000)
+                        h.touch(picks[3], 500)
+                        h.add(picks[4], 'ignored')
+                        if aborts:
+                            raise Boom()
+                    outcome[name] = 'completed'
+                except Boom:
+                    outcome[name] = 'left by an exception'
+            res.count('evaluations')
+            res.count('blocks_compared_with_unsharded')
+            a = sorted(((repr(k), f.get(k, tag=True)) for k in f), key=repr)
+            b = sorted(((repr(k), c.get(k, tag=True)) for k in c), key=repr)
+            if a != b or len(f) != len(c):
+                diff = [x for x in a if x not in b][:3] + [x for x in b if x not in a][:3]
+                res.violation('a transact() block %s on a %d-shard cache leaves other contents than on an unsharded one: %d vs %d '
+                              'items, e.g. %r' % (outcome['sharded'], shards, len(f), len(c), diff),
+                              {'label': label, 'shards': shards, 'aborts': aborts})
+                return
+    finally:
+        f.close()
+        c.close()
+        sc.drop(d1)
+        sc.drop(d2)
+
+
 def outcome_of(fn):
     try:
         return ('ok', fn())
@@ -566,6 +615,7 @@ def run_shard(tier, seed, shard, nshards, res):
                 probe.set_clock(None)
                 skewed_cull(dc, sc, res, rng, shards, 'c13 skewed cull seed=%d shard=%d i=%d' % (seed, shard, i))
                 reload_settings(dc, sc, res, rng, shards, 'c13 reload settings seed=%d shard=%d i=%d' % (seed, shard, i))
+                blocks_like_unsharded(dc, sc, res, rng, shards, 'c13 blocks seed=%d shard=%d i=%d' % (seed, shard, i))
                 for j in range(3):
                     bulk_while_shards_locked(dc, sc, res, rng, shards, 'c13 bulk under shard locks seed=%d shard=%d i=%d j=%d' % (
                         seed, shard, i, j))
